@@ -1173,8 +1173,9 @@ def fixed_effects_section(ck):
         typ = "t" if dim == 1 and rng.random() < 0.5 else ("F" if dim == 1 or rng.random() < 0.6 else "tmin-conjunction")
         n = int(rng.integers(1, 4))
         parts = []
+        live_j = int(rng.integers(0, k))                      # at least one summand has a full-rank variance
         for j in range(k):
-            null = k > 1 and rng.random() < 0.2               # a summand with zero effect and variance
+            null = j != live_j and rng.random() < 0.2         # a summand with zero effect and variance
             e = np.zeros((dim, n)) if null else rng.integers(-2 ** 12, 2 ** 12, (dim, n)) / 2.0 ** int(rng.integers(0, 8))
             A = rng.integers(-8, 9, (dim, dim + 1, n)) / 4.0
             V = np.zeros((dim, dim, n)) if null else np.einsum("ikn,jkn->ijn", A, A) + np.eye(dim)[:, :, None] / 4.0
